@@ -375,6 +375,27 @@ impl<'a> Gen<'a> {
     fn att(&mut self, a: usize, b: usize) {
         if !self.has_att(a, b) { self.up_planted(Op::NewAtt(a, b)); }
     }
+    /// LARGE universes (20 labels and more): most labels become live at once, with a sparse attack relation that is
+    /// well-founded half of the time (so that the grounded extension decides most statuses: polynomial oracle) -
+    /// size-dependent slips (tables, bit masks, binary searches above a threshold) need many LIVE arguments
+    fn bulk_prelude(&mut self) {
+        let mut ls = self.universe.clone();
+        self.rng.shuffle(&mut ls);
+        let k = ls.len() * self.rng.range(60, 90) / 100;
+        ls.truncate(k);
+        for l in ls.iter() { self.up(Op::NewArg(*l)); }
+        if self.rng.chance(1, 3) { self.random_query(); }
+        let well_founded = self.rng.chance(1, 2);
+        let m = k * self.rng.range(8, 14) / 10;
+        for _ in 0..m {
+            let i = self.rng.below(k);
+            let j = self.rng.below(k);
+            let (a, b) = if well_founded { if i == j { continue; } (ls[i.min(j)], ls[i.max(j)]) } else { (ls[i], ls[j]) };
+            self.att(a, b);
+            self.maybe_query(1, 12);
+        }
+        self.random_query();
+    }
     /// j arguments added and removed again: the ids of everything that follows are sparse
     fn junk_prelude(&mut self, j: usize) {
         let dead = self.dead();
@@ -455,6 +476,10 @@ impl<'a> Gen<'a> {
 
 pub fn gen_history(rng: &mut Rng, kind: &str, invalid: bool, thorough: bool) -> (&'static str, Vec<Step>) {
     let usz = *rng.pick(&[4usize, 6, 6, 6, 7, 8, 6, 7, 8, 6, 10, 12]);   // rarely more live arguments than the oracle judges (replay tie only above 10)
+    // one history in twenty-five lives in a LARGE universe (oracle: the polynomial judge of checks/dyn_common.py and
+    // the replay tie; the brute-force oracle judges up to 10 live arguments)
+    // (not for the attacks-variant encoders: slot^2 attack variables, their model replay is cubic; 12 labels at most there)
+    let usz = if rng.chance(1, 25) && !kind.ends_with("_att") { *rng.pick(&[20usize, 28, 36]) } else { usz };
     let universe: Vec<usize> = (1..=usz).collect();
     // one history in twelve is LONG (the event buffer of the buffered encoders, the variable tables and the
     // SAT session keep growing over a solver's life: length-dependent slips need more than 64 buffered events)
@@ -471,6 +496,7 @@ pub fn gen_history(rng: &mut Rng, kind: &str, invalid: bool, thorough: bool) -> 
         invalid,
         last_query: None,
     };
+    if usz >= 20 { g.bulk_prelude(); }
     let recipe = match recipe_id {
         0 | 1 => "random",
         2 | 3 | 4 => {
